@@ -5,6 +5,7 @@ import (
 	"math/big"
 	"time"
 
+	storetypes "cosmossdk.io/store/types"
 	sdk "github.com/cosmos/cosmos-sdk/types"
 	authtypes "github.com/cosmos/cosmos-sdk/x/auth/types"
 	distrtypes "github.com/cosmos/cosmos-sdk/x/distribution/types"
@@ -29,12 +30,13 @@ const (
 
 // World is one application instance built for one configuration.
 type World struct {
-	Env    *core.Env
-	App    *app.OsmosisApp
-	Cfg    Config
-	Params minttypes.Params
-	Gauges []uint64
-	addr   struct {
+	Env     *core.Env
+	App     *app.OsmosisApp
+	Cfg     Config
+	Params  minttypes.Params
+	Gauges  []uint64
+	mintKey storetypes.StoreKey
+	addr    struct {
 		mint, vesting, feeCol, pi, inc, distr sdk.AccAddress
 		recv                                  []sdk.AccAddress // nil entry = empty address
 	}
@@ -95,7 +97,13 @@ func NewWorld(c Config) (*World, error) {
 		},
 	})
 	a, ctx := env.App, env.Ctx
-	w := &World{Env: env, App: a, Cfg: c, Params: p}
+	w := &World{Env: env, App: a, Cfg: c, Params: p, mintKey: a.GetKVStoreKey()[minttypes.StoreKey]}
+	if w.mintKey == nil {
+		panic("harness: no mint store key")
+	}
+	if got := a.MintKeeper.ExportGenesis(ctx).ReductionStartedEpoch; got != 0 {
+		panic("harness: ReductionStartedEpoch not 0 at genesis")
+	}
 	w.addr.mint = a.AccountKeeper.GetModuleAddress(minttypes.ModuleName)
 	w.addr.vesting = a.AccountKeeper.GetModuleAddress(minttypes.DeveloperVestingModuleAcctName)
 	w.addr.feeCol = a.AccountKeeper.GetModuleAddress(authtypes.FeeCollectorName)
@@ -185,7 +193,11 @@ func (w *World) Observe(ctx sdk.Context) *Obs {
 		o.Gauges = append(o.Gauges, g.Coins.AmountOf(mintDenom).BigInt())
 	}
 	o.Prov = a.MintKeeper.GetMinter(ctx).EpochProvisions.BigInt()
-	o.LastRed = a.MintKeeper.ExportGenesis(ctx).ReductionStartedEpoch
+	// what ExportGenesis reports as ReductionStartedEpoch (read directly: ExportGenesis decodes the
+	// whole parameter set, which dominates the cost of an observation)
+	if bz := ctx.KVStore(w.mintKey).Get(minttypes.LastReductionEpochKey); bz != nil {
+		o.LastRed = int64(sdk.BigEndianToUint64(bz))
+	}
 	return o
 }
 
